@@ -4,7 +4,7 @@
    FV, FP, devprog, potential rooting depth).  Remaining oracles: the photoperiodic day length (sin/cos/asin)
    and the power / exponential inside root().  Only statements here. *)
 From Coq Require Import ZArith Reals List Bool.
-From Hermes Require Import Num RUtil CropModel CropProofs DevModel DevProofs RootDistModel RootDistProofs.
+From Hermes Require Import Num RUtil CropModel CropProofs DevModel DevProofs RootDistModel RootDistProofs SupplyModel SupplyProofs.
 Import ListNotations.
 
 (* "development never runs backwards", with the factors COMPUTED by the model of the code instead of assumed
@@ -105,6 +105,28 @@ Proof.
                    (dead_root_balance zrk wumas wumalt wugeh pi dz es Hw Hc))).
 Qed.
 
+(* N supply terms (crop.go:662-699), until round 9 mirrored in the harness and handed to the uptake model as oracle values: the mass
+   flow with the transpiration stream is >= 0 in every layer (TP, C1 >= 0, WG > 0), the diffusion coefficient is >= 0, the diffusive
+   supply has the sign of (N concentration of the soil solution - 14 mg/l) - towards the root above the threshold, away from it
+   below (the uptake clamps of Prop_C09 floor the sum) -, and the uptake limit per unit root length lies in its positive range while
+   the phyllochron sum is inside the season *)
+Theorem C09_supply_terms :
+  (forall zrk (pi dz dt : R) ls, 0 < dz -> 0 <= dt ->
+     Forall (fun l => 0 <= sl_tp l /\ 0 <= sl_c1 l /\ 0 < sl_wg l) ls ->
+     Forall (fun m => 0 <= m) (map fst (supply zrk pi dz dt ls))) /\
+  (forall ad e wg : R, 0 <= ad -> 0 < e -> 0 < wg -> 0 <= dcoef_of ad e wg) /\
+  (forall d wg pi wr c1 wud dt : R, 0 <= d -> 0 < wg -> 0 < pi -> 0 < wr -> 0 <= wud -> 0 <= dt ->
+     (14 / 1000000 <= c1 / 1000 / wg -> 0 <= diff_of d wg pi wr c1 wud dt) /\
+     (c1 / 1000 / wg <= 14 / 1000000 -> diff_of d wg pi wr c1 wud dt <= 0)) /\
+  (forall (c : maxup_class) (phyllo tendsum : R), 0 <= phyllo ->
+     match c with
+     | MxVeg => phyllo <= 7560 -> 0 < maxup_of c phyllo tendsum <= 9145 / 100000
+     | MxOther => phyllo <= 2600 -> 0 <= maxup_of c phyllo tendsum <= 3145 / 100000
+     | MxSM => 0 < tendsum -> phyllo <= tendsum -> 64 / 1000 <= maxup_of c phyllo tendsum <= 74 / 1000
+     | MxZR => 0 < tendsum -> phyllo <= tendsum -> 4645 / 100000 <= maxup_of c phyllo tendsum <= 5645 / 100000
+     end).
+Proof. exact (conj supply_mass_nonneg (conj dcoef_nonneg (conj diff_sign maxup_range))). Qed.
+
 (* non-vacuity: a winter-wheat day (4 degC, 20 vernalisation days so far, threshold 50, 14 h photoperiod against
    DAYL 20 / DLBAS 7) has all three factors strictly inside their ranges *)
 Example C09c_nonvacuous :
@@ -122,3 +144,4 @@ Print Assumptions C09_root_function_range.
 Print Assumptions C09_root_depth_monotone_true.
 Print Assumptions C09_root_distribution.
 Print Assumptions C09_dead_root_n.
+Print Assumptions C09_supply_terms.
